@@ -57,7 +57,10 @@ class WebSocket(HTTPConnection):
         """
         if self.application_state == WebSocketState.CONNECTING:
             message_type = message["type"]
-            assert message_type in {"websocket.accept", "websocket.close"}
+            if message_type not in {"websocket.accept", "websocket.close"}:
+                raise RuntimeError(
+                    f'Cannot send "{message_type}" before the connection is accepted.'
+                )
             if message_type == "websocket.close":
                 self.application_state = WebSocketState.DISCONNECTED
             else:
@@ -65,7 +68,10 @@ class WebSocket(HTTPConnection):
             await self._send(message)
         elif self.application_state == WebSocketState.CONNECTED:
             message_type = message["type"]
-            assert message_type in {"websocket.send", "websocket.close"}
+            if message_type not in {"websocket.send", "websocket.close"}:
+                raise RuntimeError(
+                    f'Cannot send "{message_type}" on an accepted connection.'
+                )
             if message_type == "websocket.close":
                 self.application_state = WebSocketState.DISCONNECTED
             await self._send(message)
@@ -85,11 +91,18 @@ class WebSocket(HTTPConnection):
         if message["type"] == "websocket.disconnect":
             raise WebSocketDisconnect(message["code"], message.get("reason"))
 
+    def _require_accepted(self) -> None:
+        # (not an assert statement: it has to hold under `python -O` as well)
+        if self.application_state != WebSocketState.CONNECTED:
+            raise RuntimeError(
+                "WebSocket is not connected. Need to call `accept` first."
+            )
+
     async def receive_text(self) -> str:
         """
         Receive a WebSocket text frame and return.
         """
-        assert self.application_state == WebSocketState.CONNECTED
+        self._require_accepted()
         message = await self.receive()
         self._raise_on_disconnect(message)
         return message["text"]
@@ -98,7 +111,7 @@ class WebSocket(HTTPConnection):
         """
         Receive a WebSocket binary frame and return.
         """
-        assert self.application_state == WebSocketState.CONNECTED
+        self._require_accepted()
         message = await self.receive()
         self._raise_on_disconnect(message)
         return message["bytes"]
